@@ -60,9 +60,36 @@ Definition agreement (l : list cobs_node) : bool := forallb (agreement_node l) l
    healed, every message delivered, K ticks per live instance) *)
 Definition last_nodes (r : list cres) : option (list cobs_node) :=
   match rev r with
-  | COk (nodes, _) :: _ => Some nodes
+  | COk o :: _ => Some (cobs_nodes o)
   | _ => None
   end.
+Definition last_views (r : list cres) : list (Z * list vrow) :=
+  match rev r with
+  | COk o :: _ => cobs_views o
+  | _ => []
+  end.
+
+(* a live instance i holds, at the end of the quiet rounds, a view of a live, linked instance j that differs from what
+   j itself reports (FSM state, Master, instance states): a publication of j was lost on the way to i. With every
+   link healed and every message delivered this only happens through the handshake window: publications of j received
+   while i still holds j in CHECKING are discarded, and the state read by the handshake is older than them. *)
+Definition vrow_id (v : vrow) : Z := match v with (i, _, _, _, _) => i end.
+Definition view_matches (v : vrow) (o : cobs_node) : bool :=
+  match v with (_, f, _, m, insts) => Z.eqb f (on_fsm o) && Z.eqb m (on_master o) && list_eqb zz_eqb insts (on_insts o) end.
+Definition stale_view (l : list cobs_node) (views : list (Z * list vrow)) : bool :=
+  existsb (fun oi =>
+    on_up oi
+    && existsb (fun oj =>
+         on_up oj && negb (Z.eqb (on_id oi) (on_id oj)) && linked l (on_id oi) (on_id oj)
+         && match aget (on_id oi) views with
+            | Some vs => match find (fun v => Z.eqb (vrow_id v) (on_id oj)) vs with
+                         | Some v => negb (view_matches v oj)
+                         | None => false
+                         end
+            | None => false
+            end) l) l.
+Definition c08_stale (r : list cres) : bool :=
+  match last_nodes r with Some l => stale_view l (last_views r) | None => false end.
 
 Definition c08_final_ok (r : list cres) : bool :=
   match last_nodes r with
@@ -76,8 +103,11 @@ Definition c01_final_ok (r : list cres) : bool :=
   end.
 Definition crashed (r : list cres) : bool := existsb (fun x => match x with CCrash _ => true | _ => false end) r.
 
+(* a non-converged end with a stale view is the known class handshake-window-state-lost; any other is a failing input *)
 Definition spec_violations_c08 (cs : list ccase) : list nat :=
-  find_idx (fun c => match c with (_, _, r) => negb (c08_final_ok r) || crashed r end) cs.
+  find_idx (fun c => match c with (_, _, r) => (negb (c08_final_ok r) && negb (c08_stale r)) || crashed r end) cs.
+Definition known_c08_stale_view (cs : list ccase) : list nat :=
+  find_idx (fun c => match c with (_, _, r) => negb (c08_final_ok r) && c08_stale r && negb (crashed r) end) cs.
 Definition spec_violations_c01c (cs : list ccase) : list nat :=
   find_idx (fun c => match c with (_, _, r) => negb (c01_final_ok r) end) cs.
 
